@@ -139,19 +139,20 @@ def phi_1D_genic(xx, nu=1.0, theta0=1.0, gamma=0, theta=None, beta=1):
     # Selection acts relative to drift in this population, whose size is nu*Nref.
     gamma = gamma * nu * 4.*beta/(beta+1.)**2
 
-    exp = numpy.exp
+    # expm1 avoids the cancellation in 1-exp(x) for small |gamma|
+    exp, expm1 = numpy.exp, numpy.expm1
     # Protect from warnings on division by zero
     if xx[0] == 0 and xx[-1] == 1:
         phi = 0*xx
         if gamma > -300:
             phi[1:-1] = 1./(xx[1:-1]*(1-xx[1:-1]))\
-                    * (1-exp(-2*gamma*(1-xx[1:-1])))/(1-exp(-2*gamma))
+                    * expm1(-2*gamma*(1-xx[1:-1]))/expm1(-2*gamma)
         else:
             # Avoid overflow issues for very negative gammas
             phi[1:-1] = 1./(xx[1:-1]*(1-xx[1:-1])) * exp(2*gamma*xx[1:-1])
     else:
         if gamma > -300:
-            phi = 1./(xx*(1-xx)) * (1-exp(-2*gamma*(1-xx)))/(1-exp(-2*gamma))
+            phi = 1./(xx*(1-xx)) * expm1(-2*gamma*(1-xx))/expm1(-2*gamma)
         else:
             phi = 1./(xx*(1-xx)) * exp(2*gamma*xx)
 
@@ -159,7 +160,7 @@ def phi_1D_genic(xx, nu=1.0, theta0=1.0, gamma=0, theta=None, beta=1):
         phi[0] = phi[1]
     if xx[-1] == 1:
         if gamma < 300:
-            limit = 2*gamma * exp(2*gamma)/(exp(2*gamma)-1)
+            limit = 2*gamma * exp(2*gamma)/expm1(2*gamma)
         else:
             limit = 2*gamma
         phi[-1] = limit
